@@ -11,6 +11,7 @@ import (
 	"sync"
 	"time"
 
+	"github.com/ThreeDotsLabs/watermill/internal/verifhook"
 	"github.com/ThreeDotsLabs/watermill/message"
 	"github.com/pkg/errors"
 )
@@ -76,6 +77,7 @@ func (d *Deduplicator) IsDuplicate(m *message.Message) (bool, error) {
 	}
 	ctx, cancel := context.WithTimeout(m.Context(), d.Timeout)
 	defer cancel()
+	verifhook.At("dedup.isduplicate.enter", d)
 	return d.Repository.IsDuplicate(ctx, key)
 }
 
